@@ -55,7 +55,13 @@ def _tx_events(args):
     for (blocks, st, cacb) in items:
         root = "".join(rnd.choice("ACGT") for _ in range(G))
         cds = cds_blocks(blocks, st, *cacb) if cacb else None
-        tx = mk_tx(blocks, st, cds, root if rnd.random() < 0.7 else None)
+        # start frames 0 / 1 / 2: no coordinate conversion (nor the amino-acid index) depends on the annotated frame
+        frames = None
+        if cds:
+            from bcverif.props.c05 import _consistent_frames
+
+            frames = list(_consistent_frames(cds, st, rnd.choice([0, 0, 1, 2])))
+        tx = mk_tx(blocks, st, cds, root if rnd.random() < 0.7 else None, frames=frames)
         if rnd.random() < 0.3:  # a transcript that has already been asked everything else
             E.warm(tx)
             if tx.cds is not None:
